@@ -53,7 +53,12 @@ pub struct Ctl {
 
 impl Ctl {
     pub fn new(dir: &str, shim: &str, copia: &str) -> Ctl {
-        let sock = format!("{}/ctl.sock", dir);
+        let mut sock = format!("{}/ctl.sock", dir);
+        if sock.len() >= 100 {
+            // sun_path holds 108 bytes: under a long working directory the socket gets a short name of its own (removed in shutdown)
+            static N: std::sync::atomic::AtomicUsize = std::sync::atomic::AtomicUsize::new(0);
+            sock = format!("{}/vpc-{}-{}.sock", std::env::temp_dir().display(), std::process::id(), N.fetch_add(1, std::sync::atomic::Ordering::SeqCst));
+        }
         let _ = std::fs::remove_file(&sock);
         let listener = UnixListener::bind(&sock).unwrap();
         let (tx, rx) = channel();
